@@ -498,6 +498,11 @@ def _expansion_by_value(ctx, R, f, ev, loop):
                     return S.lift((dt(a_) == dt(b_)) == (x.args[0] in ("==", "is")))
                 if (dt(a_) and b_ == S.NONE) or (dt(b_) and a_ == S.NONE):
                     return S.lift(x.args[0] in ("!=", "is not"))
+                if x.args[0] in ("is", "is not") and b_ == S.NONE:
+                    if a_ == S.NONE:
+                        return S.lift(x.args[0] == "is")
+                    if a_.op == "sym" and a_.args[0].startswith(modq + "."):
+                        return S.lift(x.args[0] == "is not")  # a module-level table is not None
                 return None
             if x.op in ("not", "bool") and x.args[0].op == "sym" and x.args[0].args[0].startswith(("dt:", "numpy.")):
                 return S.lift(x.op == "bool")  # a dtype / a scalar type is truthy
